@@ -377,3 +377,40 @@ func writeReplay(dir, property string, v Violation) string {
 	os.WriteFile(p, b, 0o644)
 	return p
 }
+
+// replay re-runs exactly one recorded schedule (no exploration) and prints the annotated steps.
+func replay(path string) int {
+	b, err := os.ReadFile(path)
+	if err != nil {
+		fmt.Println(err)
+		return 2
+	}
+	var v Violation
+	if err := json.Unmarshal(b, &v); err != nil {
+		fmt.Println(err)
+		return 2
+	}
+	for _, sc := range scenariosOf(v.Property, "quick") {
+		if sc.Name != v.Scenario {
+			continue
+		}
+		r := vrt.Execute(sc.opts(v.Choices, !vrt.RaceBuild), sc.Body)
+		msg := sc.judge(r)
+		fmt.Println("scenario:", sc.Name)
+		for _, l := range r.Listing {
+			fmt.Println("  ", l)
+		}
+		fmt.Println("observations:")
+		for _, l := range r.Log {
+			fmt.Println("  ", l)
+		}
+		if msg == "" {
+			fmt.Println("replay: no violation on this tree")
+			return 0
+		}
+		fmt.Printf("VIOLATION property=%s replay=%s\n  %s\n", v.Property, path, msg)
+		return 1
+	}
+	fmt.Println("scenario not found:", v.Scenario)
+	return 2
+}
